@@ -10,7 +10,7 @@ from ..progmc import driver, jobs as J
 
 P = "C09"
 PLACEMENTS = ["root_body", "root_helper", "kept_body", "kept_helper", "two_loads", "kept_datafn", "same_path_twice", "kept_body_local_import", "kept_body_thread",
-              "loaded_value_to_inner_keep", "kept_body_other_spelling"]
+              "loaded_value_to_inner_keep", "kept_body_other_spelling", "method_on_loaded", "method_with_path_like_arg"]
 PRODUCERS = ["datafn", "keepcall", "keepcall_shared_fn", "datafn_in_keep_args"]
 
 
@@ -45,6 +45,11 @@ def make_spec(placement, producer):
         # the reader imports dds inside its own body / issues the load from a worker thread it starts and joins
         body = ([{"k": "raw", "text": "import dds"}, load] if placement == "kept_body_local_import" else [dict(load, ctx="thread")])
         funcs.append({"name": "K", "module": "main", "params": [], "body": body})
+        reader_items = [{"k": "keep", "path": "/l/k", "fn": "K", "args": []}]
+    elif placement in ("method_on_loaded", "method_with_path_like_arg"):
+        # a method is called on the loaded value where it is loaded: dds.load(p).upper() / .strip('/zzz')
+        meth = "upper()" if placement == "method_on_loaded" else "strip('/zzz')"
+        funcs.append({"name": "K", "module": "main", "params": [], "body": [dict(load, method=meth)]})
         reader_items = [{"k": "keep", "path": "/l/k", "fn": "K", "args": []}]
     elif placement == "kept_body_other_spelling":
         # the reader spells the path with empty segments ('/l//p/'): it is the same path
